@@ -75,8 +75,8 @@ Inductive payload :=
 | YCycle (g : option prim) (args : list prim)
 | YInclude (i : inclx)
 | YRender (r : rendx)
-| YIdent (s : str).                     (* capture, increment, decrement *)
-Inductive pkind := KExpr | KAssign | KLoop | KCase | KWhen | KCycle | KInclude | KRender | KIdent.
+| YIdent (s : str).                     (* increment, decrement (kind KIdent); capture (kind KCapture: nothing may follow) *)
+Inductive pkind := KExpr | KAssign | KLoop | KCase | KWhen | KCycle | KInclude | KRender | KIdent | KCapture.
 Definition kind_of (y : payload) : pkind :=
   match y with
   | YExpr _ => KExpr | YAssign _ _ => KAssign | YLoop _ => KLoop | YCase _ => KCase | YWhen _ => KWhen | YCycle _ _ => KCycle
@@ -441,6 +441,7 @@ Section Syntax.
     | KInclude => do i <- parse_include fixed ts; Ok (YInclude i)
     | KRender => do r <- parse_render fixed ts; Ok (YRender r)
     | KIdent => do i <- parse_ident true ts; Ok (YIdent (fst i))       (* increment / decrement do not look further *)
+    | KCapture => do i <- parse_ident true ts; match snd i with [] => Ok (YIdent (fst i)) | _ => Err ESyntax end
     end.
   Definition parse_payload := parse_payload_gen true.
 End Syntax.
